@@ -452,8 +452,8 @@ type compJ struct {
 	Str  string `json:"str,omitempty"`
 }
 
-func (k comp) json() compJ  { return compJ{k.Kind, hx(k.Val), k.Port, k.Str} }
-func (j compJ) comp() comp  { v, _ := hexDecode(j.Val); return comp{j.Kind, v, j.Port, j.Str} }
+func (k comp) json() compJ               { return compJ{k.Kind, hx(k.Val), k.Port, k.Str} }
+func (j compJ) comp() comp               { v, _ := hexDecode(j.Val); return comp{j.Kind, v, j.Port, j.Str} }
 func hexDecode(s string) ([]byte, error) { return hex.DecodeString(s) }
 
 func (k comp) text() string {
